@@ -47,7 +47,7 @@ def handwritten():
     S.append(mk('hw:org-sym', [
         ('label', 'a'), ('instr', 'ld16', L('far')), ('org', V('v1'), None), ('label', 'far'),
         ('data', '.2byte', [L('a'), L('far')]), ('instr', 'nop', None), ('label', 'e')],
-        expect=('ok', 'exit')))
+        expect=('ok', 'rejected')))
     S.append(mk('hw:org-back-and-forth', [
         ('data', '.byte', [C(1), C(2)]), ('org', ('+', V('v1'), C(0x2000)), None), ('label', 'x'), ('instr', 'nop', None),
         ('org', C(0x1800), None), ('label', 'y'), ('data', '.2byte', [L('x'), L('y')])], consts=('v1',)))
